@@ -1060,7 +1060,7 @@ theorem inv_run_e (s : State) (sched : List Tid) (ha : AInv s) (hb : BInv s) (hf
 
 theorem reach_run (s : State) (sched : List Tid) (ha : AInv s) (hb : BInv s) (hf : FInv s) (hm : MdInv s)
     (hn : NoCreate s)
-    (i : Id) (o : Obj) (hr : Reach s i o) (hal : Held s o) : Reach (run s sched) i o := by
+    (i : Id) (o : Obj) (hr : Reach s i o) (hal : o ∈ s.refs ∨ o ∈ s.pins) : Reach (run s sched) i o := by
   induction sched generalizing s with
   | nil => exact hr
   | cons t ts ih =>
@@ -1069,7 +1069,9 @@ theorem reach_run (s : State) (sched : List Tid) (ha : AInv s) (hb : BInv s) (hf
     · rename_i s' hs
       exact ih s' (ainv_step s s' t ha hs) (binv_step s s' t ha hb hf hm (crok_of_nocreate s t hn) hs)
         (finv_step s s' t hf hs) (mdinv_step s s' t hm hs) (nocreate_step s s' t hn hs)
-        (reach_step s s' t ha hb (crok_of_nocreate s t hn) hs i o hr hal) (held_step s s' t hs o hal)
+        (reach_step s s' t ha hb (crok_of_nocreate s t hn) hs i o hr
+          (by rcases hal with h | h; exact Or.inl h; exact Or.inr (Or.inl h)))
+        (held_step s s' t hs o hal)
     · exact ih s ha hb hf hm hn hr hal
 
 end SqlObjVerif.Conc
